@@ -197,7 +197,7 @@ def call_fn(ev):
     return "?"
 
 
-def validate_heap(ctx, calls, invariants, tag, max_viol_per_fn=6):
+def validate_heap(ctx, calls, invariants, tag, max_viol_per_fn=12):
     """Step the recorded calls through sm/Heap.tla, one TLC run per function (in parallel).
     -> (n_calls_accepted, n_states, violations=[(inv, fn, call_id, events)], rejects, infra)"""
     byfn = collections.OrderedDict()
@@ -210,6 +210,7 @@ def validate_heap(ctx, calls, invariants, tag, max_viol_per_fn=6):
                 % " ".join(invariants))
 
     def one(fn, lst):
+        # fn names the shard (several functions); the function of a finding is taken from its call
         viol, rej, infra, states, accepted = [], [], [], 0, 0
         lst = list(lst)
         for it in range(max_viol_per_fn + 1):
@@ -236,7 +237,7 @@ def validate_heap(ctx, calls, invariants, tag, max_viol_per_fn=6):
                 cid = owner[at - 1]
                 ev = dict(lst)[cid]
                 if it < max_viol_per_fn:
-                    viol.append((inv, fn, cid, ev))
+                    viol.append((inv, call_fn(ev), cid, ev))
                 else:
                     vlib.log("[heap] %s: more than %d violating calls, the rest is not listed" % (fn, max_viol_per_fn))
                     break
@@ -247,7 +248,7 @@ def validate_heap(ctx, calls, invariants, tag, max_viol_per_fn=6):
                 ls = re.findall(r"^/\\ l = (\d+)", r.out, re.M)
                 at = max(1, min(int(ls[-1]) if ls else len(rows), len(rows)))
                 cid = owner[at - 1]
-                rej.append((fn, cid, dict(lst)[cid], rows[at - 1]))
+                rej.append((call_fn(dict(lst)[cid]), cid, dict(lst)[cid], rows[at - 1]))
                 lst = [(c, e) for c, e in lst if c != cid]
                 if len(rej) > max_viol_per_fn:
                     break
@@ -256,7 +257,12 @@ def validate_heap(ctx, calls, invariants, tag, max_viol_per_fn=6):
             break
         return fn, accepted, states, viol, rej, infra
 
-    outs = vlib.parallel([(lambda fn=fn, lst=lst: one(fn, lst)) for fn, lst in byfn.items()], n=6)
+    # a few shards of whole functions (one JVM each), balanced by the number of lines
+    nsh = max(1, min(8, len(byfn)))
+    shards = [[] for _ in range(nsh)]
+    for fn, lst in sorted(byfn.items(), key=lambda kv: -sum(len(e) for _, e in kv[1])):
+        min(shards, key=lambda sh: sum(len(e) for _, e in sh)).extend(lst)
+    outs = vlib.parallel([(lambda i=i, lst=lst: one("shard%d" % i, lst)) for i, lst in enumerate(shards) if lst], n=6)
     acc = sum(o[1] for o in outs)
     st = sum(o[2] for o in outs)
     viol = [v for o in outs for v in o[3]]
